@@ -199,13 +199,59 @@ def check_tree(ctx, case):
                 return ctx.fail(("clone_from_root-scratch-not-reset",), case, det)
 
 
+def check_results_of_rewrites(ctx, case):
+    """clone() of every single-rewrite result of the case's tree (payload kinds such as numpy scalars, stale
+    operand caches and duplicated ids only exist after rewrites)."""
+    root = E.build_tree(ctx, case)
+    if root is None or len(A.preorder(root)) > 60:
+        return
+    for name, rule in E.rules():
+        for n in A.inorder(root):
+            try:
+                if not rule.can_apply_to(n):
+                    continue
+            except Exception:
+                continue
+            ap = E.apply(rule, n)
+            if ap.error is not None or ap.result_root is None or A.audit(ap.result_root) is not None:
+                continue
+            res = ap.result_root
+            ctx.count("rewrite_results_cloned")
+            try:
+                cl = res.clone()
+            except Exception as e:
+                return ctx.fail(("clone-raised",) + E.exc_site(e), case, {"after": f"{name} at {E.text_of(n)}", "error": repr(e)[:200]})
+            if check_clone_pair(ctx, case, res, cl, f"result of {name}:{ap.arrangement} at {E.text_of(n)}") is not True:
+                return
+            inner = A.preorder(res)
+            if len(inner) > 1:
+                pick = inner[len(inner) // 2]
+                try:
+                    c = pick.clone_from_root()
+                except Exception as e:
+                    return ctx.fail(("clone_from_root-raised",) + E.exc_site(e)[:1], case, {"after": f"{name} at {E.text_of(n)}", "error": repr(e)[:200]})
+                if c is None or not hasattr(c, "parent") or c.id != pick.id or A.path_of(c) != A.path_of(pick):
+                    return ctx.fail(("clone_from_root-wrong-node",), case, {"after": f"{name} at {E.text_of(n)}", "node": E.text_of(pick)})
+
+
 def replay(ctx, case):
     check_tree(ctx, case)
+    if case.get("build") != "ctor":
+        check_results_of_rewrites(ctx, case)
 
 
 def run(ctx):
+    texts = G.sweep_texts()
+    step = 3 if ctx.tier == "quick" else 1
+    for i, t in enumerate(texts[::step]):
+        if i % ctx.nshards != ctx.shard:
+            continue
+        ctx.count("evaluations")
+        ctx.count("sweep:cases")
+        check_results_of_rewrites(ctx, {"text": t, "pre": []})
     mx = 12 if ctx.tier == "quick" else 20
     parser_cases = G.tree_case(mx)
     ctor_texts = st.one_of(G.expr_text(mx), G.template_text(), st.sampled_from(["-x", "-(-x)", "3!", "sgn(-x) + sgn(x)", "-(x + -(y * -z))", "(x + y) + (x + y)", "-x - -x", "2^-(3!)"]))
     ctor_cases = st.builds(lambda t, col: {"text": t, "pre": [], "build": "ctor", "child_on_left": col}, ctor_texts, st.booleans())
-    hyp_run(ctx, "trees", st.one_of(parser_cases, ctor_cases), check_tree, ctx.n(3500, 12000))
+    hyp_run(ctx, "trees", st.one_of(parser_cases, ctor_cases), check_tree, ctx.n(2500, 12000))
+    hyp_run(ctx, "rewrite-results", parser_cases, check_results_of_rewrites, ctx.n(600, 4000))
